@@ -39,17 +39,17 @@ package parser
 //@ func parser.advance
 //@   tags C04 C10 C09
 //@   assigns p.curr, p.next, p.lex, fam:G_pos, fam:G_toks
-//@   requires pi: p.curr.Type == tokT(ppos) && p.next.Type == tokT(ppos + 1) && tokOK(p.curr.Type, p.curr.Value) && tokOK(p.next.Type, p.next.Value) && 0 <= p.lex.position && p.lex.position <= len(p.lex.expression)
+//@   requires pi: p.curr.Type == tokT(ppos) && p.next.Type == tokT(ppos + 1) && tokOK(p.curr.Type, p.curr.Value) && tokOK(p.next.Type, p.next.Value) && 0 <= p.lex.position && p.lex.position <= len(p.lex.expression) && aligned(p.lex.expression) && boundAt(p.lex.expression, p.lex.position)
 //@   ensures shift: result == nil ==> p.curr == old(p.next)
-//@   ensures tokens: result == nil ==> tokOK(p.curr.Type, p.curr.Value) && tokOK(p.next.Type, p.next.Value) && 0 <= p.lex.position && p.lex.position <= len(p.lex.expression)
+//@   ensures tokens: result == nil ==> tokOK(p.curr.Type, p.curr.Value) && tokOK(p.next.Type, p.next.Value) && 0 <= p.lex.position && p.lex.position <= len(p.lex.expression) && aligned(p.lex.expression) && boundAt(p.lex.expression, p.lex.position)
 //@   defines result == nil ==> ppos == old(ppos) + 1 && toks() == old(toks()) && p.next.Type == tokT(ppos + 1)
 //@   defines result != nil ==> ppos == old(ppos) && toks() == old(toks())
 
 //@ func parser.advance2
 //@   tags C04 C10 C09
 //@   assigns p.curr, p.next, p.lex, fam:G_pos, fam:G_toks
-//@   requires pi: p.curr.Type == tokT(ppos) && p.next.Type == tokT(ppos + 1) && tokOK(p.curr.Type, p.curr.Value) && tokOK(p.next.Type, p.next.Value) && 0 <= p.lex.position && p.lex.position <= len(p.lex.expression)
-//@   ensures tokens: result == nil ==> tokOK(p.curr.Type, p.curr.Value) && tokOK(p.next.Type, p.next.Value) && 0 <= p.lex.position && p.lex.position <= len(p.lex.expression)
+//@   requires pi: p.curr.Type == tokT(ppos) && p.next.Type == tokT(ppos + 1) && tokOK(p.curr.Type, p.curr.Value) && tokOK(p.next.Type, p.next.Value) && 0 <= p.lex.position && p.lex.position <= len(p.lex.expression) && aligned(p.lex.expression) && boundAt(p.lex.expression, p.lex.position)
+//@   ensures tokens: result == nil ==> tokOK(p.curr.Type, p.curr.Value) && tokOK(p.next.Type, p.next.Value) && 0 <= p.lex.position && p.lex.position <= len(p.lex.expression) && aligned(p.lex.expression) && boundAt(p.lex.expression, p.lex.position)
 //@   defines result == nil ==> ppos == old(ppos) + 2 && toks() == old(toks()) && p.curr.Type == tokT(ppos) && p.next.Type == tokT(ppos + 1)
 //@   defines result != nil ==> ppos == old(ppos) && toks() == old(toks())
 
@@ -63,23 +63,23 @@ package parser
 //@   tags C04 C09
 //@   linear
 //@   assigns p.curr, p.next, p.lex, fam:G_pos, fam:G_toks
-//@   requires pi: p.curr.Type == tokT(ppos) && p.next.Type == tokT(ppos + 1) && tokOK(p.curr.Type, p.curr.Value) && tokOK(p.next.Type, p.next.Value) && 0 <= p.lex.position && p.lex.position <= len(p.lex.expression)
+//@   requires pi: p.curr.Type == tokT(ppos) && p.next.Type == tokT(ppos + 1) && tokOK(p.curr.Type, p.curr.Value) && tokOK(p.next.Type, p.next.Value) && 0 <= p.lex.position && p.lex.position <= len(p.lex.expression) && aligned(p.lex.expression) && boundAt(p.lex.expression, p.lex.position)
 //@   ensures[C04] end: result1 == nil ==> p.curr.Type == const("lexer.EndToken") && result0 != nil
 
 //@ func parser.filter
 //@   tags C04 C09
 //@   linear
 //@   assigns p.curr, p.next, p.lex, fam:G_pos, fam:G_toks
-//@   requires pi: p.curr.Type == tokT(ppos) && p.next.Type == tokT(ppos + 1) && tokOK(p.curr.Type, p.curr.Value) && tokOK(p.next.Type, p.next.Value) && 0 <= p.lex.position && p.lex.position <= len(p.lex.expression)
-//@   ensures pi: result1 == nil ==> p.curr.Type == tokT(ppos) && p.next.Type == tokT(ppos + 1) && tokOK(p.curr.Type, p.curr.Value) && tokOK(p.next.Type, p.next.Value) && 0 <= p.lex.position && p.lex.position <= len(p.lex.expression)
+//@   requires pi: p.curr.Type == tokT(ppos) && p.next.Type == tokT(ppos + 1) && tokOK(p.curr.Type, p.curr.Value) && tokOK(p.next.Type, p.next.Value) && 0 <= p.lex.position && p.lex.position <= len(p.lex.expression) && aligned(p.lex.expression) && boundAt(p.lex.expression, p.lex.position)
+//@   ensures pi: result1 == nil ==> p.curr.Type == tokT(ppos) && p.next.Type == tokT(ppos + 1) && tokOK(p.curr.Type, p.curr.Value) && tokOK(p.next.Type, p.next.Value) && 0 <= p.lex.position && p.lex.position <= len(p.lex.expression) && aligned(p.lex.expression) && boundAt(p.lex.expression, p.lex.position)
 //@   ensures[C04] close: result1 == nil ==> tokT(ppos - 1) == const("lexer.CloseSqBraceToken") && ppos > old(ppos) + 1 && result0 != nil
 
 //@ func parser.expression
 //@   tags C10 C04 C09
 //@   linear
 //@   assigns p.curr, p.next, p.lex, fam:G_pos, fam:G_toks
-//@   requires pi: p.curr.Type == tokT(ppos) && p.next.Type == tokT(ppos + 1) && tokOK(p.curr.Type, p.curr.Value) && tokOK(p.next.Type, p.next.Value) && 0 <= p.lex.position && p.lex.position <= len(p.lex.expression)
-//@   ensures pi: result1 == nil ==> p.curr.Type == tokT(ppos) && p.next.Type == tokT(ppos + 1) && tokOK(p.curr.Type, p.curr.Value) && tokOK(p.next.Type, p.next.Value) && 0 <= p.lex.position && p.lex.position <= len(p.lex.expression)
+//@   requires pi: p.curr.Type == tokT(ppos) && p.next.Type == tokT(ppos + 1) && tokOK(p.curr.Type, p.curr.Value) && tokOK(p.next.Type, p.next.Value) && 0 <= p.lex.position && p.lex.position <= len(p.lex.expression) && aligned(p.lex.expression) && boundAt(p.lex.expression, p.lex.position)
+//@   ensures pi: result1 == nil ==> p.curr.Type == tokT(ppos) && p.next.Type == tokT(ppos + 1) && tokOK(p.curr.Type, p.curr.Value) && tokOK(p.next.Type, p.next.Value) && 0 <= p.lex.position && p.lex.position <= len(p.lex.expression) && aligned(p.lex.expression) && boundAt(p.lex.expression, p.lex.position)
 //@   ensures[C09] progress: result1 == nil ==> ppos > old(ppos) && result0 != nil
 //@   ensures[C10] stop: result1 == nil ==> precOf(p.curr.Type) <= prec || !infixTok(p.curr.Type)
 //@   at advance#* assert[C10] tighter: precOf(p.curr.Type) > prec
@@ -110,7 +110,7 @@ package parser
 //@   loop 1
 //@     invariant p.curr.Type == tokT(ppos) && p.next.Type == tokT(ppos + 1)
 //@     invariant tokOK(p.curr.Type, p.curr.Value) && tokOK(p.next.Type, p.next.Value)
-//@     invariant 0 <= p.lex.position && p.lex.position <= len(p.lex.expression)
+//@     invariant 0 <= p.lex.position && p.lex.position <= len(p.lex.expression) && aligned(p.lex.expression) && boundAt(p.lex.expression, p.lex.position)
 //@     invariant ppos > old(ppos)
 //@     invariant newPrec == precOf(p.curr.Type)
 //@     invariant node != nil
@@ -120,8 +120,8 @@ package parser
 //@   tags C10 C04 C09
 //@   linear
 //@   assigns p.curr, p.next, p.lex, fam:G_pos, fam:G_toks
-//@   requires pi: p.curr.Type == tokT(ppos) && p.next.Type == tokT(ppos + 1) && tokOK(p.curr.Type, p.curr.Value) && tokOK(p.next.Type, p.next.Value) && 0 <= p.lex.position && p.lex.position <= len(p.lex.expression)
-//@   ensures pi: result1 == nil ==> p.curr.Type == tokT(ppos) && p.next.Type == tokT(ppos + 1) && tokOK(p.curr.Type, p.curr.Value) && tokOK(p.next.Type, p.next.Value) && 0 <= p.lex.position && p.lex.position <= len(p.lex.expression)
+//@   requires pi: p.curr.Type == tokT(ppos) && p.next.Type == tokT(ppos + 1) && tokOK(p.curr.Type, p.curr.Value) && tokOK(p.next.Type, p.next.Value) && 0 <= p.lex.position && p.lex.position <= len(p.lex.expression) && aligned(p.lex.expression) && boundAt(p.lex.expression, p.lex.position)
+//@   ensures pi: result1 == nil ==> p.curr.Type == tokT(ppos) && p.next.Type == tokT(ppos + 1) && tokOK(p.curr.Type, p.curr.Value) && tokOK(p.next.Type, p.next.Value) && 0 <= p.lex.position && p.lex.position <= len(p.lex.expression) && aligned(p.lex.expression) && boundAt(p.lex.expression, p.lex.position)
 //@   ensures[C09] progress: result1 == nil ==> ppos > old(ppos) && result0 != nil
 //@   at expression#* assert[C10] prefix: arg1 == 1 || arg1 >= precOf(const("lexer.MultiplyToken"))
 //@   at projection#1 assert[C01 C17] extends.dot: precOf(const("lexer.DotToken")) > arg1
@@ -150,21 +150,24 @@ package parser
 //@   tags C04 C09 C01
 //@   linear
 //@   assigns p.curr, p.next, p.lex, fam:G_pos, fam:G_toks
-//@   requires pi: p.curr.Type == tokT(ppos) && p.next.Type == tokT(ppos + 1) && tokOK(p.curr.Type, p.curr.Value) && tokOK(p.next.Type, p.next.Value) && 0 <= p.lex.position && p.lex.position <= len(p.lex.expression)
-//@   ensures pi: result1 == nil ==> p.curr.Type == tokT(ppos) && p.next.Type == tokT(ppos + 1) && tokOK(p.curr.Type, p.curr.Value) && tokOK(p.next.Type, p.next.Value) && 0 <= p.lex.position && p.lex.position <= len(p.lex.expression)
+//@   requires pi: p.curr.Type == tokT(ppos) && p.next.Type == tokT(ppos + 1) && tokOK(p.curr.Type, p.curr.Value) && tokOK(p.next.Type, p.next.Value) && 0 <= p.lex.position && p.lex.position <= len(p.lex.expression) && aligned(p.lex.expression) && boundAt(p.lex.expression, p.lex.position)
+//@   ensures pi: result1 == nil ==> p.curr.Type == tokT(ppos) && p.next.Type == tokT(ppos + 1) && tokOK(p.curr.Type, p.curr.Value) && tokOK(p.next.Type, p.next.Value) && 0 <= p.lex.position && p.lex.position <= len(p.lex.expression) && aligned(p.lex.expression) && boundAt(p.lex.expression, p.lex.position)
 //@   ensures[C09] progress: result1 == nil && result0 != nil ==> ppos > old(ppos)
 //@   ensures none: result1 == nil && result0 == nil ==> ppos == old(ppos) && toks() == old(toks())
 //@   ensures[C01 C17] rhs.absent: result1 == nil && result0 == nil ==> !selectorTok(tokT(ppos))
 //@   loop 1
-//@     invariant p.curr.Type == tokT(ppos) && p.next.Type == tokT(ppos + 1) && tokOK(p.curr.Type, p.curr.Value) && tokOK(p.next.Type, p.next.Value) && 0 <= p.lex.position && p.lex.position <= len(p.lex.expression) && ppos > old(ppos) && newPrec == precOf(p.curr.Type) && node != nil
+//@     invariant p.curr.Type == tokT(ppos) && p.next.Type == tokT(ppos + 1)
+//@     invariant tokOK(p.curr.Type, p.curr.Value) && tokOK(p.next.Type, p.next.Value)
+//@     invariant 0 <= p.lex.position && p.lex.position <= len(p.lex.expression) && aligned(p.lex.expression) && boundAt(p.lex.expression, p.lex.position)
+//@     invariant ppos > old(ppos) && newPrec == precOf(p.curr.Type) && node != nil
 //@     invariant[C04 C01 C17] linear: pendingOnly(node)
 
 //@ func parser.index
 //@   tags C04 C09 C12
 //@   linear
 //@   assigns p.curr, p.next, p.lex, fam:G_pos, fam:G_toks
-//@   requires pi: p.curr.Type == tokT(ppos) && p.next.Type == tokT(ppos + 1) && tokOK(p.curr.Type, p.curr.Value) && tokOK(p.next.Type, p.next.Value) && 0 <= p.lex.position && p.lex.position <= len(p.lex.expression)
-//@   ensures pi: result2 == nil ==> p.curr.Type == tokT(ppos) && p.next.Type == tokT(ppos + 1) && tokOK(p.curr.Type, p.curr.Value) && tokOK(p.next.Type, p.next.Value) && 0 <= p.lex.position && p.lex.position <= len(p.lex.expression)
+//@   requires pi: p.curr.Type == tokT(ppos) && p.next.Type == tokT(ppos + 1) && tokOK(p.curr.Type, p.curr.Value) && tokOK(p.next.Type, p.next.Value) && 0 <= p.lex.position && p.lex.position <= len(p.lex.expression) && aligned(p.lex.expression) && boundAt(p.lex.expression, p.lex.position)
+//@   ensures pi: result2 == nil ==> p.curr.Type == tokT(ppos) && p.next.Type == tokT(ppos + 1) && tokOK(p.curr.Type, p.curr.Value) && tokOK(p.next.Type, p.next.Value) && 0 <= p.lex.position && p.lex.position <= len(p.lex.expression) && aligned(p.lex.expression) && boundAt(p.lex.expression, p.lex.position)
 //@   ensures[C04] close: result2 == nil ==> tokT(ppos - 1) == const("lexer.CloseSqBraceToken") && ppos > old(ppos) && result0 != nil
 //@   ensures[C12] start.given.SliceNode: result2 == nil && isType(result0, "*github.com/woodsbury/jmespath/internal/parser.SliceNode") && old(p.curr.Type) == const("lexer.IntegerLiteralToken") ==> as(result0, "parser.SliceNode").Start == atoiVal(old(p.curr.Value))
 //@   ensures[C12] start.absent.SliceNode: result2 == nil && isType(result0, "*github.com/woodsbury/jmespath/internal/parser.SliceNode") && old(p.curr.Type) == const("lexer.ColonToken") ==> as(result0, "parser.SliceNode").Start == ite(1 < 0, 9223372036854775807, 0)
@@ -186,12 +189,12 @@ package parser
 //@   tags C04 C09
 //@   linear
 //@   assigns p.curr, p.next, p.lex, fam:G_pos, fam:G_toks
-//@   requires pi: p.curr.Type == tokT(ppos) && p.next.Type == tokT(ppos + 1) && tokOK(p.curr.Type, p.curr.Value) && tokOK(p.next.Type, p.next.Value) && 0 <= p.lex.position && p.lex.position <= len(p.lex.expression)
-//@   ensures pi: result1 == nil ==> p.curr.Type == tokT(ppos) && p.next.Type == tokT(ppos + 1) && tokOK(p.curr.Type, p.curr.Value) && tokOK(p.next.Type, p.next.Value) && 0 <= p.lex.position && p.lex.position <= len(p.lex.expression)
+//@   requires pi: p.curr.Type == tokT(ppos) && p.next.Type == tokT(ppos + 1) && tokOK(p.curr.Type, p.curr.Value) && tokOK(p.next.Type, p.next.Value) && 0 <= p.lex.position && p.lex.position <= len(p.lex.expression) && aligned(p.lex.expression) && boundAt(p.lex.expression, p.lex.position)
+//@   ensures pi: result1 == nil ==> p.curr.Type == tokT(ppos) && p.next.Type == tokT(ppos + 1) && tokOK(p.curr.Type, p.curr.Value) && tokOK(p.next.Type, p.next.Value) && 0 <= p.lex.position && p.lex.position <= len(p.lex.expression) && aligned(p.lex.expression) && boundAt(p.lex.expression, p.lex.position)
 //@   ensures[C04] close: result1 == nil ==> tokT(ppos - 1) == const("lexer.CloseSqBraceToken") && ppos > old(ppos) && result0 != nil
 //@   loop 1
 //@     invariant[C04 C01 C17] linear: pendingOnly()
-//@     invariant p.curr.Type == tokT(ppos) && p.next.Type == tokT(ppos + 1) && tokOK(p.curr.Type, p.curr.Value) && tokOK(p.next.Type, p.next.Value) && 0 <= p.lex.position && p.lex.position <= len(p.lex.expression) && fresh(fields)
+//@     invariant p.curr.Type == tokT(ppos) && p.next.Type == tokT(ppos + 1) && tokOK(p.curr.Type, p.curr.Value) && tokOK(p.next.Type, p.next.Value) && 0 <= p.lex.position && p.lex.position <= len(p.lex.expression) && aligned(p.lex.expression) && boundAt(p.lex.expression, p.lex.position) && fresh(fields)
 //@     invariant forall k Int :: 0 <= k && k < len(fields) ==> fields[k] != nil
 //@     invariant[C04] separator: ppos == old(ppos) || (tokT(ppos - 1) == const("lexer.CommaToken") && ppos > old(ppos))
 
@@ -199,29 +202,29 @@ package parser
 //@   tags C04 C09
 //@   linear
 //@   assigns p.curr, p.next, p.lex, fam:G_pos, fam:G_toks
-//@   requires pi: p.curr.Type == tokT(ppos) && p.next.Type == tokT(ppos + 1) && tokOK(p.curr.Type, p.curr.Value) && tokOK(p.next.Type, p.next.Value) && 0 <= p.lex.position && p.lex.position <= len(p.lex.expression)
-//@   ensures pi: result1 == nil ==> p.curr.Type == tokT(ppos) && p.next.Type == tokT(ppos + 1) && tokOK(p.curr.Type, p.curr.Value) && tokOK(p.next.Type, p.next.Value) && 0 <= p.lex.position && p.lex.position <= len(p.lex.expression)
+//@   requires pi: p.curr.Type == tokT(ppos) && p.next.Type == tokT(ppos + 1) && tokOK(p.curr.Type, p.curr.Value) && tokOK(p.next.Type, p.next.Value) && 0 <= p.lex.position && p.lex.position <= len(p.lex.expression) && aligned(p.lex.expression) && boundAt(p.lex.expression, p.lex.position)
+//@   ensures pi: result1 == nil ==> p.curr.Type == tokT(ppos) && p.next.Type == tokT(ppos + 1) && tokOK(p.curr.Type, p.curr.Value) && tokOK(p.next.Type, p.next.Value) && 0 <= p.lex.position && p.lex.position <= len(p.lex.expression) && aligned(p.lex.expression) && boundAt(p.lex.expression, p.lex.position)
 //@   ensures[C04] close: result1 == nil ==> tokT(ppos - 1) == const("lexer.CloseBraceToken") && ppos > old(ppos) && result0 != nil
 //@   at advance2#1 assert[C04] key: p.curr.Type == const("lexer.QuotedIdentifierToken") || p.curr.Type == const("lexer.UnquotedIdentifierToken")
 //@   loop 1
 //@     invariant[C04 C01 C17] linear: pendingOnly()
 //@     invariant fresh(fields) && fields != nil && (forall k Int :: hasKey(fields, k) ==> getKey(fields, k) != nil)
-//@     invariant p.curr.Type == tokT(ppos) && p.next.Type == tokT(ppos + 1) && tokOK(p.curr.Type, p.curr.Value) && tokOK(p.next.Type, p.next.Value) && 0 <= p.lex.position && p.lex.position <= len(p.lex.expression)
+//@     invariant p.curr.Type == tokT(ppos) && p.next.Type == tokT(ppos + 1) && tokOK(p.curr.Type, p.curr.Value) && tokOK(p.next.Type, p.next.Value) && 0 <= p.lex.position && p.lex.position <= len(p.lex.expression) && aligned(p.lex.expression) && boundAt(p.lex.expression, p.lex.position)
 //@     invariant[C04] separator: ppos == old(ppos) || (tokT(ppos - 1) == const("lexer.CommaToken") && ppos > old(ppos))
 
 //@ func parser.let
 //@   tags C04 C09 C19
 //@   linear
 //@   assigns p.curr, p.next, p.lex, fam:G_pos, fam:G_toks
-//@   requires pi: p.curr.Type == tokT(ppos) && p.next.Type == tokT(ppos + 1) && tokOK(p.curr.Type, p.curr.Value) && tokOK(p.next.Type, p.next.Value) && 0 <= p.lex.position && p.lex.position <= len(p.lex.expression)
-//@   ensures pi: result1 == nil ==> p.curr.Type == tokT(ppos) && p.next.Type == tokT(ppos + 1) && tokOK(p.curr.Type, p.curr.Value) && tokOK(p.next.Type, p.next.Value) && 0 <= p.lex.position && p.lex.position <= len(p.lex.expression)
+//@   requires pi: p.curr.Type == tokT(ppos) && p.next.Type == tokT(ppos + 1) && tokOK(p.curr.Type, p.curr.Value) && tokOK(p.next.Type, p.next.Value) && 0 <= p.lex.position && p.lex.position <= len(p.lex.expression) && aligned(p.lex.expression) && boundAt(p.lex.expression, p.lex.position)
+//@   ensures pi: result1 == nil ==> p.curr.Type == tokT(ppos) && p.next.Type == tokT(ppos + 1) && tokOK(p.curr.Type, p.curr.Value) && tokOK(p.next.Type, p.next.Value) && 0 <= p.lex.position && p.lex.position <= len(p.lex.expression) && aligned(p.lex.expression) && boundAt(p.lex.expression, p.lex.position)
 //@   ensures[C09] progress: result1 == nil ==> ppos > old(ppos) && result0 != nil
 //@   at advance2#1 assert[C04 C19] binding: p.curr.Type == const("lexer.VariableToken") && p.next.Type == const("lexer.AssignToken")
 //@   ensures[C19 C10] body.extends: result1 == nil ==> precOf(tokT(ppos)) <= 1 || !infixTok(tokT(ppos))
 //@   loop 1
 //@     invariant[C04 C01 C17] linear: pendingOnly()
 //@     invariant fresh(variables) && variables != nil && (forall k Int :: hasKey(variables, k) ==> getKey(variables, k) != nil)
-//@     invariant p.curr.Type == tokT(ppos) && p.next.Type == tokT(ppos + 1) && tokOK(p.curr.Type, p.curr.Value) && tokOK(p.next.Type, p.next.Value) && 0 <= p.lex.position && p.lex.position <= len(p.lex.expression)
+//@     invariant p.curr.Type == tokT(ppos) && p.next.Type == tokT(ppos + 1) && tokOK(p.curr.Type, p.curr.Value) && tokOK(p.next.Type, p.next.Value) && 0 <= p.lex.position && p.lex.position <= len(p.lex.expression) && aligned(p.lex.expression) && boundAt(p.lex.expression, p.lex.position)
 //@     invariant[C04] separator: ppos == old(ppos) || (tokT(ppos - 1) == const("lexer.CommaToken") && ppos > old(ppos))
 
 // ---------------------------------------------------------------------------
@@ -233,8 +236,8 @@ package parser
 //@   at new:unexpectedTokenError#* assert[C02 C08] arity.sep: p.curr.Type != const("lexer.CloseParenToken") && p.curr.Type != const("lexer.CommaToken")
 //@   at new:InvalidFunctionCallError#* assert[C02 C08] arity.only: p.curr.Type == const("lexer.CloseParenToken") || p.curr.Type == const("lexer.CommaToken")
 //@   assigns p.curr, p.next, p.lex, fam:G_pos, fam:G_toks
-//@   requires pi: p.curr.Type == tokT(ppos) && p.next.Type == tokT(ppos + 1) && tokOK(p.curr.Type, p.curr.Value) && tokOK(p.next.Type, p.next.Value) && 0 <= p.lex.position && p.lex.position <= len(p.lex.expression)
-//@   ensures pi: result1 == nil ==> p.curr.Type == tokT(ppos) && p.next.Type == tokT(ppos + 1) && tokOK(p.curr.Type, p.curr.Value) && tokOK(p.next.Type, p.next.Value) && 0 <= p.lex.position && p.lex.position <= len(p.lex.expression)
+//@   requires pi: p.curr.Type == tokT(ppos) && p.next.Type == tokT(ppos + 1) && tokOK(p.curr.Type, p.curr.Value) && tokOK(p.next.Type, p.next.Value) && 0 <= p.lex.position && p.lex.position <= len(p.lex.expression) && aligned(p.lex.expression) && boundAt(p.lex.expression, p.lex.position)
+//@   ensures pi: result1 == nil ==> p.curr.Type == tokT(ppos) && p.next.Type == tokT(ppos + 1) && tokOK(p.curr.Type, p.curr.Value) && tokOK(p.next.Type, p.next.Value) && 0 <= p.lex.position && p.lex.position <= len(p.lex.expression) && aligned(p.lex.expression) && boundAt(p.lex.expression, p.lex.position)
 //@   ensures[C04] close: result1 == nil ==> tokT(ppos - 1) == const("lexer.CloseParenToken") && ppos > old(ppos) && result0 != nil
 //@   ensures[C02 C08] noargs: old(p.curr.Type) == const("lexer.CloseParenToken") ==> isType(result1, "*github.com/woodsbury/jmespath/internal/parser.InvalidFunctionCallError")
 
@@ -244,8 +247,8 @@ package parser
 //@   at new:unexpectedTokenError#* assert[C02 C08] arity.sep: p.curr.Type != const("lexer.CloseParenToken") && p.curr.Type != const("lexer.CommaToken")
 //@   at new:InvalidFunctionCallError#* assert[C02 C08] arity.only: p.curr.Type == const("lexer.CloseParenToken") || p.curr.Type == const("lexer.CommaToken")
 //@   assigns p.curr, p.next, p.lex, fam:G_pos, fam:G_toks
-//@   requires pi: p.curr.Type == tokT(ppos) && p.next.Type == tokT(ppos + 1) && tokOK(p.curr.Type, p.curr.Value) && tokOK(p.next.Type, p.next.Value) && 0 <= p.lex.position && p.lex.position <= len(p.lex.expression)
-//@   ensures pi: result2 == nil ==> p.curr.Type == tokT(ppos) && p.next.Type == tokT(ppos + 1) && tokOK(p.curr.Type, p.curr.Value) && tokOK(p.next.Type, p.next.Value) && 0 <= p.lex.position && p.lex.position <= len(p.lex.expression)
+//@   requires pi: p.curr.Type == tokT(ppos) && p.next.Type == tokT(ppos + 1) && tokOK(p.curr.Type, p.curr.Value) && tokOK(p.next.Type, p.next.Value) && 0 <= p.lex.position && p.lex.position <= len(p.lex.expression) && aligned(p.lex.expression) && boundAt(p.lex.expression, p.lex.position)
+//@   ensures pi: result2 == nil ==> p.curr.Type == tokT(ppos) && p.next.Type == tokT(ppos + 1) && tokOK(p.curr.Type, p.curr.Value) && tokOK(p.next.Type, p.next.Value) && 0 <= p.lex.position && p.lex.position <= len(p.lex.expression) && aligned(p.lex.expression) && boundAt(p.lex.expression, p.lex.position)
 //@   ensures[C03] args: result2 == nil ==> result0 != nil
 //@   ensures[C04] close: result2 == nil ==> tokT(ppos - 1) == const("lexer.CloseParenToken") && ppos > old(ppos) && result0 != nil
 //@   ensures[C02 C08] noargs: old(p.curr.Type) == const("lexer.CloseParenToken") ==> isType(result2, "*github.com/woodsbury/jmespath/internal/parser.InvalidFunctionCallError")
@@ -256,8 +259,8 @@ package parser
 //@   at new:unexpectedTokenError#* assert[C02 C08] arity.sep: p.curr.Type != const("lexer.CloseParenToken") && p.curr.Type != const("lexer.CommaToken")
 //@   at new:InvalidFunctionCallError#* assert[C02 C08] arity.only: p.curr.Type == const("lexer.CloseParenToken") || p.curr.Type == const("lexer.CommaToken")
 //@   assigns p.curr, p.next, p.lex, fam:G_pos, fam:G_toks
-//@   requires pi: p.curr.Type == tokT(ppos) && p.next.Type == tokT(ppos + 1) && tokOK(p.curr.Type, p.curr.Value) && tokOK(p.next.Type, p.next.Value) && 0 <= p.lex.position && p.lex.position <= len(p.lex.expression)
-//@   ensures pi: result2 == nil ==> p.curr.Type == tokT(ppos) && p.next.Type == tokT(ppos + 1) && tokOK(p.curr.Type, p.curr.Value) && tokOK(p.next.Type, p.next.Value) && 0 <= p.lex.position && p.lex.position <= len(p.lex.expression)
+//@   requires pi: p.curr.Type == tokT(ppos) && p.next.Type == tokT(ppos + 1) && tokOK(p.curr.Type, p.curr.Value) && tokOK(p.next.Type, p.next.Value) && 0 <= p.lex.position && p.lex.position <= len(p.lex.expression) && aligned(p.lex.expression) && boundAt(p.lex.expression, p.lex.position)
+//@   ensures pi: result2 == nil ==> p.curr.Type == tokT(ppos) && p.next.Type == tokT(ppos + 1) && tokOK(p.curr.Type, p.curr.Value) && tokOK(p.next.Type, p.next.Value) && 0 <= p.lex.position && p.lex.position <= len(p.lex.expression) && aligned(p.lex.expression) && boundAt(p.lex.expression, p.lex.position)
 //@   ensures[C03] args: result2 == nil ==> result0 != nil && result1 != nil
 //@   ensures[C04] close: result2 == nil ==> tokT(ppos - 1) == const("lexer.CloseParenToken") && ppos > old(ppos) && result0 != nil
 //@   ensures[C02 C08] noargs: old(p.curr.Type) == const("lexer.CloseParenToken") ==> isType(result2, "*github.com/woodsbury/jmespath/internal/parser.InvalidFunctionCallError")
@@ -268,8 +271,8 @@ package parser
 //@   at new:unexpectedTokenError#* assert[C02 C08] arity.sep: p.curr.Type != const("lexer.CloseParenToken") && p.curr.Type != const("lexer.CommaToken")
 //@   at new:InvalidFunctionCallError#* assert[C02 C08] arity.only: p.curr.Type == const("lexer.CloseParenToken") || p.curr.Type == const("lexer.CommaToken")
 //@   assigns p.curr, p.next, p.lex, fam:G_pos, fam:G_toks
-//@   requires pi: p.curr.Type == tokT(ppos) && p.next.Type == tokT(ppos + 1) && tokOK(p.curr.Type, p.curr.Value) && tokOK(p.next.Type, p.next.Value) && 0 <= p.lex.position && p.lex.position <= len(p.lex.expression)
-//@   ensures pi: result2 == nil ==> p.curr.Type == tokT(ppos) && p.next.Type == tokT(ppos + 1) && tokOK(p.curr.Type, p.curr.Value) && tokOK(p.next.Type, p.next.Value) && 0 <= p.lex.position && p.lex.position <= len(p.lex.expression)
+//@   requires pi: p.curr.Type == tokT(ppos) && p.next.Type == tokT(ppos + 1) && tokOK(p.curr.Type, p.curr.Value) && tokOK(p.next.Type, p.next.Value) && 0 <= p.lex.position && p.lex.position <= len(p.lex.expression) && aligned(p.lex.expression) && boundAt(p.lex.expression, p.lex.position)
+//@   ensures pi: result2 == nil ==> p.curr.Type == tokT(ppos) && p.next.Type == tokT(ppos + 1) && tokOK(p.curr.Type, p.curr.Value) && tokOK(p.next.Type, p.next.Value) && 0 <= p.lex.position && p.lex.position <= len(p.lex.expression) && aligned(p.lex.expression) && boundAt(p.lex.expression, p.lex.position)
 //@   ensures[C03] args: result2 == nil ==> result0 != nil && result1 != nil
 //@   ensures[C04] close: result2 == nil ==> tokT(ppos - 1) == const("lexer.CloseParenToken") && ppos > old(ppos) && result0 != nil
 //@   ensures[C02 C08] noargs: old(p.curr.Type) == const("lexer.CloseParenToken") ==> isType(result2, "*github.com/woodsbury/jmespath/internal/parser.InvalidFunctionCallError")
@@ -280,8 +283,8 @@ package parser
 //@   at new:unexpectedTokenError#* assert[C02 C08] arity.sep: p.curr.Type != const("lexer.CloseParenToken") && p.curr.Type != const("lexer.CommaToken")
 //@   at new:InvalidFunctionCallError#* assert[C02 C08] arity.only: p.curr.Type == const("lexer.CloseParenToken") || p.curr.Type == const("lexer.CommaToken")
 //@   assigns p.curr, p.next, p.lex, fam:G_pos, fam:G_toks
-//@   requires pi: p.curr.Type == tokT(ppos) && p.next.Type == tokT(ppos + 1) && tokOK(p.curr.Type, p.curr.Value) && tokOK(p.next.Type, p.next.Value) && 0 <= p.lex.position && p.lex.position <= len(p.lex.expression)
-//@   ensures pi: result2 == nil ==> p.curr.Type == tokT(ppos) && p.next.Type == tokT(ppos + 1) && tokOK(p.curr.Type, p.curr.Value) && tokOK(p.next.Type, p.next.Value) && 0 <= p.lex.position && p.lex.position <= len(p.lex.expression)
+//@   requires pi: p.curr.Type == tokT(ppos) && p.next.Type == tokT(ppos + 1) && tokOK(p.curr.Type, p.curr.Value) && tokOK(p.next.Type, p.next.Value) && 0 <= p.lex.position && p.lex.position <= len(p.lex.expression) && aligned(p.lex.expression) && boundAt(p.lex.expression, p.lex.position)
+//@   ensures pi: result2 == nil ==> p.curr.Type == tokT(ppos) && p.next.Type == tokT(ppos + 1) && tokOK(p.curr.Type, p.curr.Value) && tokOK(p.next.Type, p.next.Value) && 0 <= p.lex.position && p.lex.position <= len(p.lex.expression) && aligned(p.lex.expression) && boundAt(p.lex.expression, p.lex.position)
 //@   ensures[C03] args: result2 == nil ==> result0 != nil && result1 != nil
 //@   ensures[C04] close: result2 == nil ==> tokT(ppos - 1) == const("lexer.CloseParenToken") && ppos > old(ppos) && result0 != nil
 //@   ensures[C02 C08] noargs: old(p.curr.Type) == const("lexer.CloseParenToken") ==> isType(result2, "*github.com/woodsbury/jmespath/internal/parser.InvalidFunctionCallError")
@@ -292,8 +295,8 @@ package parser
 //@   at new:unexpectedTokenError#* assert[C02 C08] arity.sep: p.curr.Type != const("lexer.CloseParenToken") && p.curr.Type != const("lexer.CommaToken")
 //@   at new:InvalidFunctionCallError#* assert[C02 C08] arity.only: p.curr.Type == const("lexer.CloseParenToken") || p.curr.Type == const("lexer.CommaToken")
 //@   assigns p.curr, p.next, p.lex, fam:G_pos, fam:G_toks
-//@   requires pi: p.curr.Type == tokT(ppos) && p.next.Type == tokT(ppos + 1) && tokOK(p.curr.Type, p.curr.Value) && tokOK(p.next.Type, p.next.Value) && 0 <= p.lex.position && p.lex.position <= len(p.lex.expression)
-//@   ensures pi: result3 == nil ==> p.curr.Type == tokT(ppos) && p.next.Type == tokT(ppos + 1) && tokOK(p.curr.Type, p.curr.Value) && tokOK(p.next.Type, p.next.Value) && 0 <= p.lex.position && p.lex.position <= len(p.lex.expression)
+//@   requires pi: p.curr.Type == tokT(ppos) && p.next.Type == tokT(ppos + 1) && tokOK(p.curr.Type, p.curr.Value) && tokOK(p.next.Type, p.next.Value) && 0 <= p.lex.position && p.lex.position <= len(p.lex.expression) && aligned(p.lex.expression) && boundAt(p.lex.expression, p.lex.position)
+//@   ensures pi: result3 == nil ==> p.curr.Type == tokT(ppos) && p.next.Type == tokT(ppos + 1) && tokOK(p.curr.Type, p.curr.Value) && tokOK(p.next.Type, p.next.Value) && 0 <= p.lex.position && p.lex.position <= len(p.lex.expression) && aligned(p.lex.expression) && boundAt(p.lex.expression, p.lex.position)
 //@   ensures[C03] args: result3 == nil ==> result0 != nil && result1 != nil
 //@   ensures[C04] close: result3 == nil ==> tokT(ppos - 1) == const("lexer.CloseParenToken") && ppos > old(ppos) && result0 != nil
 //@   ensures[C02 C08] noargs: old(p.curr.Type) == const("lexer.CloseParenToken") ==> isType(result3, "*github.com/woodsbury/jmespath/internal/parser.InvalidFunctionCallError")
@@ -304,8 +307,8 @@ package parser
 //@   at new:unexpectedTokenError#* assert[C02 C08] arity.sep: p.curr.Type != const("lexer.CloseParenToken") && p.curr.Type != const("lexer.CommaToken")
 //@   at new:InvalidFunctionCallError#* assert[C02 C08] arity.only: p.curr.Type == const("lexer.CloseParenToken") || p.curr.Type == const("lexer.CommaToken")
 //@   assigns p.curr, p.next, p.lex, fam:G_pos, fam:G_toks
-//@   requires pi: p.curr.Type == tokT(ppos) && p.next.Type == tokT(ppos + 1) && tokOK(p.curr.Type, p.curr.Value) && tokOK(p.next.Type, p.next.Value) && 0 <= p.lex.position && p.lex.position <= len(p.lex.expression)
-//@   ensures pi: result4 == nil ==> p.curr.Type == tokT(ppos) && p.next.Type == tokT(ppos + 1) && tokOK(p.curr.Type, p.curr.Value) && tokOK(p.next.Type, p.next.Value) && 0 <= p.lex.position && p.lex.position <= len(p.lex.expression)
+//@   requires pi: p.curr.Type == tokT(ppos) && p.next.Type == tokT(ppos + 1) && tokOK(p.curr.Type, p.curr.Value) && tokOK(p.next.Type, p.next.Value) && 0 <= p.lex.position && p.lex.position <= len(p.lex.expression) && aligned(p.lex.expression) && boundAt(p.lex.expression, p.lex.position)
+//@   ensures pi: result4 == nil ==> p.curr.Type == tokT(ppos) && p.next.Type == tokT(ppos + 1) && tokOK(p.curr.Type, p.curr.Value) && tokOK(p.next.Type, p.next.Value) && 0 <= p.lex.position && p.lex.position <= len(p.lex.expression) && aligned(p.lex.expression) && boundAt(p.lex.expression, p.lex.position)
 //@   ensures[C03] args: result4 == nil ==> result0 != nil && result1 != nil && (result3 != nil ==> result2 != nil)
 //@   ensures[C04] close: result4 == nil ==> tokT(ppos - 1) == const("lexer.CloseParenToken") && ppos > old(ppos) && result0 != nil
 //@   ensures[C02 C08] noargs: old(p.curr.Type) == const("lexer.CloseParenToken") ==> isType(result4, "*github.com/woodsbury/jmespath/internal/parser.InvalidFunctionCallError")
@@ -316,8 +319,8 @@ package parser
 //@   at new:unexpectedTokenError#* assert[C02 C08] arity.sep: p.curr.Type != const("lexer.CloseParenToken") && p.curr.Type != const("lexer.CommaToken")
 //@   at new:InvalidFunctionCallError#* assert[C02 C08] arity.only: p.curr.Type == const("lexer.CloseParenToken") || p.curr.Type == const("lexer.CommaToken")
 //@   assigns p.curr, p.next, p.lex, fam:G_pos, fam:G_toks
-//@   requires pi: p.curr.Type == tokT(ppos) && p.next.Type == tokT(ppos + 1) && tokOK(p.curr.Type, p.curr.Value) && tokOK(p.next.Type, p.next.Value) && 0 <= p.lex.position && p.lex.position <= len(p.lex.expression)
-//@   ensures pi: result4 == nil ==> p.curr.Type == tokT(ppos) && p.next.Type == tokT(ppos + 1) && tokOK(p.curr.Type, p.curr.Value) && tokOK(p.next.Type, p.next.Value) && 0 <= p.lex.position && p.lex.position <= len(p.lex.expression)
+//@   requires pi: p.curr.Type == tokT(ppos) && p.next.Type == tokT(ppos + 1) && tokOK(p.curr.Type, p.curr.Value) && tokOK(p.next.Type, p.next.Value) && 0 <= p.lex.position && p.lex.position <= len(p.lex.expression) && aligned(p.lex.expression) && boundAt(p.lex.expression, p.lex.position)
+//@   ensures pi: result4 == nil ==> p.curr.Type == tokT(ppos) && p.next.Type == tokT(ppos + 1) && tokOK(p.curr.Type, p.curr.Value) && tokOK(p.next.Type, p.next.Value) && 0 <= p.lex.position && p.lex.position <= len(p.lex.expression) && aligned(p.lex.expression) && boundAt(p.lex.expression, p.lex.position)
 //@   ensures[C03] args: result4 == nil ==> result0 != nil && result1 != nil && result2 != nil
 //@   ensures[C04] close: result4 == nil ==> tokT(ppos - 1) == const("lexer.CloseParenToken") && ppos > old(ppos) && result0 != nil
 //@   ensures[C02 C08] noargs: old(p.curr.Type) == const("lexer.CloseParenToken") ==> isType(result4, "*github.com/woodsbury/jmespath/internal/parser.InvalidFunctionCallError")
@@ -328,14 +331,14 @@ package parser
 //@   at new:unexpectedTokenError#* assert[C02 C08] arity.sep: p.curr.Type != const("lexer.CloseParenToken") && p.curr.Type != const("lexer.CommaToken")
 //@   at new:InvalidFunctionCallError#* assert[C02 C08] arity.only: p.curr.Type == const("lexer.CloseParenToken") || p.curr.Type == const("lexer.CommaToken")
 //@   assigns p.curr, p.next, p.lex, fam:G_pos, fam:G_toks
-//@   requires pi: p.curr.Type == tokT(ppos) && p.next.Type == tokT(ppos + 1) && tokOK(p.curr.Type, p.curr.Value) && tokOK(p.next.Type, p.next.Value) && 0 <= p.lex.position && p.lex.position <= len(p.lex.expression)
-//@   ensures pi: result1 == nil ==> p.curr.Type == tokT(ppos) && p.next.Type == tokT(ppos + 1) && tokOK(p.curr.Type, p.curr.Value) && tokOK(p.next.Type, p.next.Value) && 0 <= p.lex.position && p.lex.position <= len(p.lex.expression)
+//@   requires pi: p.curr.Type == tokT(ppos) && p.next.Type == tokT(ppos + 1) && tokOK(p.curr.Type, p.curr.Value) && tokOK(p.next.Type, p.next.Value) && 0 <= p.lex.position && p.lex.position <= len(p.lex.expression) && aligned(p.lex.expression) && boundAt(p.lex.expression, p.lex.position)
+//@   ensures pi: result1 == nil ==> p.curr.Type == tokT(ppos) && p.next.Type == tokT(ppos + 1) && tokOK(p.curr.Type, p.curr.Value) && tokOK(p.next.Type, p.next.Value) && 0 <= p.lex.position && p.lex.position <= len(p.lex.expression) && aligned(p.lex.expression) && boundAt(p.lex.expression, p.lex.position)
 //@   ensures[C04] close: result1 == nil ==> tokT(ppos - 1) == const("lexer.CloseParenToken") && ppos > old(ppos) && len(result0) >= 1
 //@   ensures[C03] args: result1 == nil ==> (forall k Int :: 0 <= k && k < len(result0) ==> result0[k] != nil)
 //@   ensures[C02 C08] noargs: old(p.curr.Type) == const("lexer.CloseParenToken") ==> isType(result1, "*github.com/woodsbury/jmespath/internal/parser.InvalidFunctionCallError")
 //@   loop 1
 //@     invariant[C04 C01 C17] linear: pendingOnly()
-//@     invariant p.curr.Type == tokT(ppos) && p.next.Type == tokT(ppos + 1) && tokOK(p.curr.Type, p.curr.Value) && tokOK(p.next.Type, p.next.Value) && 0 <= p.lex.position && p.lex.position <= len(p.lex.expression) && fresh(nodes)
+//@     invariant p.curr.Type == tokT(ppos) && p.next.Type == tokT(ppos + 1) && tokOK(p.curr.Type, p.curr.Value) && tokOK(p.next.Type, p.next.Value) && 0 <= p.lex.position && p.lex.position <= len(p.lex.expression) && aligned(p.lex.expression) && boundAt(p.lex.expression, p.lex.position) && fresh(nodes)
 //@     invariant forall k Int :: 0 <= k && k < len(nodes) ==> nodes[k] != nil
 //@     invariant[C04] separator: (ppos == old(ppos) && len(nodes) == 0) || (tokT(ppos - 1) == const("lexer.CommaToken") && ppos > old(ppos) && len(nodes) >= 1)
 
@@ -343,9 +346,9 @@ package parser
 //@   tags C02 C04 C08 C09
 //@   linear
 //@   assigns p.curr, p.next, p.lex, fam:G_pos, fam:G_toks
-//@   requires pi: p.curr.Type == tokT(ppos) && p.next.Type == tokT(ppos + 1) && tokOK(p.curr.Type, p.curr.Value) && tokOK(p.next.Type, p.next.Value) && 0 <= p.lex.position && p.lex.position <= len(p.lex.expression)
+//@   requires pi: p.curr.Type == tokT(ppos) && p.next.Type == tokT(ppos + 1) && tokOK(p.curr.Type, p.curr.Value) && tokOK(p.next.Type, p.next.Value) && 0 <= p.lex.position && p.lex.position <= len(p.lex.expression) && aligned(p.lex.expression) && boundAt(p.lex.expression, p.lex.position)
 //@   requires call: p.next.Type == const("lexer.OpenParenToken")
-//@   ensures pi: result1 == nil ==> p.curr.Type == tokT(ppos) && p.next.Type == tokT(ppos + 1) && tokOK(p.curr.Type, p.curr.Value) && tokOK(p.next.Type, p.next.Value) && 0 <= p.lex.position && p.lex.position <= len(p.lex.expression)
+//@   ensures pi: result1 == nil ==> p.curr.Type == tokT(ppos) && p.next.Type == tokT(ppos + 1) && tokOK(p.curr.Type, p.curr.Value) && tokOK(p.next.Type, p.next.Value) && 0 <= p.lex.position && p.lex.position <= len(p.lex.expression) && aligned(p.lex.expression) && boundAt(p.lex.expression, p.lex.position)
 //@   ensures[C09] progress: result1 == nil ==> ppos > old(ppos) + 1 && result0 != nil
 //@   ensures[C04] close: result1 == nil ==> tokT(ppos - 1) == const("lexer.CloseParenToken")
 //@   ensures[C02] table.abs: result1 == nil && old(p.curr.Value) == "abs" ==> isType(result0, "*github.com/woodsbury/jmespath/internal/parser.AbsNode")
@@ -404,16 +407,21 @@ package parser
 //@   ensures[C04 C16] valid: result1 == nil ==> jsonText(key(strReplace(s[1:len(s) - 1], "\\`", "`", 0 - 1)))
 
 //@ func parseStringLiteral
-//@   tags C16 C04 C03
+//@   tags C16 C04 C03 C11
 //@   requires delimited: len(s) >= 2
+//@   requires[C11] text: aligned(s) && s[0] < 128 && s[len(s) - 1] < 128
 //@   ensures[C16] shrinks: result1 == nil && isType(result0, "*github.com/woodsbury/jmespath/internal/parser.StringNode") ==> len(as(result0, "parser.StringNode").Value) <= len(s) - 2
 //@   loop 1
 //@     invariant len(v) >= 1
 //@     invariant[C16] written: bldLen(b) + len(v) + 1 <= len(s) - 2
+//@     invariant[C11] text.b: bldOk(b)
+//@     invariant[C11] text.v: aligned(v)
+//@     invariant[C11] text.w: subwindow(v, s) && hi(v) == hi(s) - 1
 //@   ensures node: result1 == nil && result0 != nil
 
 //@ func Parse
 //@   tags C04 C09 C06
+//@   requires[C11] text: whole(expression)
 //@   ensures result1 == nil ==> result0 != nil
 //@   at parse#1 assume p.curr.Type == tokT(ppos) && p.next.Type == tokT(ppos + 1)
 //@   note the ghost token stream is by definition what the lexer yields, starting with the two tokens read here
@@ -491,8 +499,8 @@ package parser
 //@ typeinv SelectArrayCurrentNode: (forall k Int :: 0 <= k && k < len(self.Fields) ==> self.Fields[k] != nil) && len(self.Fields) >= 1
 //@ typeinv SelectArraySingleNode: self.Child != nil && self.Field != nil
 //@ typeinv SelectArraySingleCurrentNode: self.Field != nil
-//@ typeinv SelectObjectSingleNode: self.Child != nil && self.Field != nil
-//@ typeinv SelectObjectSingleCurrentNode: self.Field != nil
+//@ typeinv SelectObjectSingleNode: self.Child != nil && self.Field != nil && aligned(self.Key)
+//@ typeinv SelectObjectSingleCurrentNode: self.Field != nil && aligned(self.Key)
 //@ typeinv SliceNode: self.Child != nil
 //@ typeinv SliceStepNode: self.Child != nil && self.Step != 0
 //@ typeinv SliceStepCurrentNode: self.Step != 0
@@ -514,6 +522,7 @@ package parser
 //@ typeinv TrimSpaceRightNode: self.Argument != nil
 //@ typeinv TypeNode: self.Argument != nil
 //@ typeinv UpperNode: self.Argument != nil
+//@ typeinv StringNode: aligned(self.Value)
 //@ typeinv ValuesNode: self.Argument != nil
 //@ typeinv ZipNode: (forall k Int :: 0 <= k && k < len(self.Arguments) ==> self.Arguments[k] != nil) && len(self.Arguments) >= 1
 //@ typeinv DefineVariables: self.Child != nil && (forall k Int :: hasKey(self.Variables, k) ==> getKey(self.Variables, k) != nil)
@@ -524,13 +533,20 @@ package parser
 //@ ghost hexByte(c Int) Bool = (48 <= c && c <= 57) || (65 <= c && c <= 70) || (97 <= c && c <= 102)
 
 //@ func parseQuotedIdentifier
-//@   tags C16 C04 C03
+//@   tags C16 C04 C03 C11
 //@   requires delimited: len(s) >= 2
+//@   requires[C11] text: aligned(s) && s[0] < 128 && s[len(s) - 1] < 128
+//@   ensures[C11] text: result1 == nil ==> aligned(result0)
 //@   note it_str is the string the loop ranges over (v[1:5], v[2:6]); in loop 3 the two bytes in front of it are the `\u` of the second escape
 //@   loop 1
 //@     invariant len(v) >= 1
+//@     invariant[C11] text.b: bldOk(b)
+//@     invariant[C11] text.v: aligned(v)
+//@     invariant[C11] text.w: subwindow(v, s) && hi(v) == hi(s) - 1
 //@   loop 2
 //@     invariant[C04 C16] hex: forall k Int :: {byteOf(it_str, k)} 0 <= k && k < it_n ==> hexByte(byteOf(it_str, k))
+//@     invariant[C11] last: 0 <= it_n && (it_n > 3 ==> it_str[3] < 128)
 //@   loop 3
 //@     invariant[C04 C16] pair: it_str[0 - 2] == 92 && it_str[0 - 1] == 117
 //@     invariant[C04 C16] hex: forall k Int :: {byteOf(it_str, k)} 0 <= k && k < it_n ==> hexByte(byteOf(it_str, k))
+//@     invariant[C11] last: 0 <= it_n && (it_n > 3 ==> it_str[3] < 128)
